@@ -58,7 +58,7 @@ fn gens(scanner: bool) -> &'static [Gen; 2] {
     &all[scanner as usize]
 }
 
-fn write_sources(src: &Path, g: &Gen, scanner: bool, mtime: SystemTime) {
+fn write_sources(src: &Path, g: &Gen, scanner: bool, mtime: SystemTime, scanner_mtime: SystemTime) {
     std::fs::create_dir_all(src.join("tree_sitter")).unwrap();
     let put = |p: PathBuf, content: &str| {
         let tmp = p.with_extension("tmpw");
@@ -74,7 +74,10 @@ fn write_sources(src: &Path, g: &Gen, scanner: bool, mtime: SystemTime) {
     put(src.join("grammar.json"), &g.json);
     put(src.join("parser.c"), &g.c);
     if scanner {
-        put(src.join("scanner.c"), SCANNER_C);
+        let p = src.join("scanner.c");
+        put(p.clone(), SCANNER_C);
+        let f = std::fs::File::options().write(true).open(&p).unwrap();
+        f.set_modified(scanner_mtime).unwrap();
     }
 }
 
@@ -325,14 +328,18 @@ impl Check for C19 {
             drop(f);
             std::fs::rename(&tmp, to).unwrap();
         };
+        let oldest = now - Duration::from_secs(300);
         match state {
-            0 => write_sources(&src, &g[1], scanner, old),
+            0 => write_sources(&src, &g[1], scanner, old, old),
             1 => {
                 build(&g[0], &lib, older);
-                write_sources(&src, &g[1], scanner, old);
+                // only parser.c was regenerated: the scanner may be older than the library
+                let scanner_old = scanner && t.pct(60);
+                ctx.label_if(scanner_old, "state:stale_parser_only");
+                write_sources(&src, &g[1], scanner, old, if scanner_old { oldest } else { old });
             }
             _ => {
-                write_sources(&src, &g[1], scanner, older);
+                write_sources(&src, &g[1], scanner, older, older);
                 build(&g[1], &lib, old);
             }
         }
